@@ -225,13 +225,14 @@ def bool_text(sx, fam):
 @harness('C05', params=[(g, form) for g in STR_GRID for form in ('str', 'bin')], label=lambda p: '%s as msgpack %s' % (p[0][0], p[1]),
          functions=['spyne.protocol.dictdoc.hier.HierDictDocument._from_dict_value',
                     'spyne.model.primitive.string.Unicode.validate_string'],
-         bounds={'text': '0..5 characters over the alphabet a b c d 0 9 (every string), handed over as msgpack str or as msgpack bin '
+         bounds={'text': '0..5 characters over the alphabet a b c d 0 9 e-acute (every string), handed over as msgpack str or as msgpack bin '
                          '(the form spyne itself writes)'})
 def msgpack_str_native(sx, p):
     """MessagePack: the string facets decide the same way whether the text arrives as str or as bin"""
     (name, T, lo, hi, pattern, values), form = p
     L = sx.choose('len', [0, 1, 2, 3, 4, 5])
-    text = sx.text('t', L, alphabet='abcd09') if L else u''
+    # (e-acute: one character, two bytes - the facets count characters)
+    text = sx.text('t', L, alphabet=u'abcd09\xe9') if L else u''
     wire = text if form == 'str' else text.encode('utf8')
     out = run_soft(lambda: MSGPACK._from_dict_value(CTX, 'k', T, wire, MSGPACK.validator))
     ok = _str_ok(sx, text, lo, hi, pattern, values)
